@@ -12,6 +12,7 @@ means in the property.
 -/
 import Schc.Proofs.CoapSemantic
 import Schc.Proofs.UnparseStack
+import Schc.Proofs.UnparseCompute
 
 namespace Schc
 
@@ -118,6 +119,28 @@ theorem C19_stack_roundtrip {ip : ParserInst} {name : String} {layout : Layout} 
   rw [e, t1, t2, t3]
   simp only [ABuf.from_, List.append_assoc, List.take_append_drop]
 
+/-- … and with compute fields: the rule may also mark IPv6 payload length, UDP length and UDP checksum as *compute*
+    (any subset). `decompress` un-parses first and computes afterwards (fix 858b849), so the lengths and the checksum
+    are regenerated over the re-encoded options; for packets in which those fields are what RFC 8200 / RFC 768
+    prescribe (`Valid6`, stated on the packet's own syntactic fields) the packet comes back bit for bit. -/
+theorem C19_stack_roundtrip_compute
+    (ip : ParserInst) (hi6 : ip.cls = "IPv6Parser") (hinp : ip.predict = false) (hipm : ip.coapMode = .syntactic)
+    (udp : ParserInst) (hu : udp.cls = "UDPParser") (hunp : udp.predict = false) (hum : udp.coapMode = .syntactic)
+    (cs : ParserInst) (hc : cs.cls = "CoAPParser") (hsem : cs.coapMode = .semantic)
+    (fuel : Nat) (b : ABuf) (hside : b.side = .left) (h1 h2 hs : Header)
+    (hp1 : runParser fuel ip b = .ok h1) (hp2 : runParser fuel udp (b.from_ h1.length) = .ok h2)
+    (hp3 : coapParse .syntactic fuel ((b.from_ h1.length).from_ h2.length) = .ok hs) (hwf : WfNibbles (pairs hs.fields))
+    (d : Dir) (r : Rule) (rf12 restR : List RuleField) (hr : r.fields = rf12 ++ restR) (h12r : rf12.length = 12)
+    (hn : r.nature = .compression) (hdir : ∀ rf ∈ r.fields, Spec.dirApplies d rf.dir = true)
+    (hncR : ∀ rf ∈ restR, rf.cda ≠ .compute) :
+    ∃ pm : Packet, packetParse fuel [ip, udp, cs] b = .ok pm ∧
+      (Spec.applicable { pm with dir := d } r = true → AllFitsC pm.fields r.fields →
+        Valid6 (fv (h1.fields ++ h2.fields) 3) (fv (h1.fields ++ h2.fields) 6) (fv (h1.fields ++ h2.fields) 7)
+          (fv (h1.fields ++ h2.fields) 8) (fv (h1.fields ++ h2.fields) 9) (fv (h1.fields ++ h2.fields) 10) (fv (h1.fields ++ h2.fields) 11)
+          (pairs hs.fields ++ [(Gen.payloadId, pm.payload)]) →
+        ∃ c, compress { pm with dir := d } r = .ok c ∧ decompressU c r (some [ip, udp, cs]) none = .ok ⟨b.bits, .right⟩) :=
+  roundtrip_ipv6_udp_coap_semantic ip hi6 hinp hipm udp hu hunp hum cs hc hsem fuel b hside h1 h2 hs hp1 hp2 hp3 hwf d r rf12 restR hr h12r hn hdir hncR
+
 /-- the CoAP parser alone as a one-header stack, options in semantic mode -/
 theorem C19_single_unparse (cs : ParserInst) (hc : cs.cls = "CoAPParser") (hsem : cs.coapMode = .semantic)
     (fuel : Nat) (b : ABuf) (hside : b.side = .left) (hs : Header)
@@ -130,12 +153,23 @@ theorem C19_single_unparse (cs : ParserInst) (hc : cs.cls = "CoAPParser") (hsem 
 /-- non-vacuity of the stack theorems: IPv6 / UDP / CoAP GET with Uri-Path "a" and payload "abc" -/
 example :
     let b : ABuf := ABuf.ofBytes ([0x60, 0, 0, 0, 0, 0x12, 17, 64] ++ List.replicate 15 0 ++ [1] ++ List.replicate 15 0 ++ [2] ++
-      [0x03, 0xe8, 0x16, 0x33, 0x00, 0x12, 0x8e, 0xb3, 0x40, 0x01, 0x12, 0x34, 0xb1, 0x61, 0xff, 0x61, 0x62, 0x63]) 464 .left
+      [0x03, 0xe8, 0x16, 0x33, 0x00, 0x12, 0x80, 0x50, 0x40, 0x01, 0x12, 0x34, 0xb1, 0x61, 0xff, 0x61, 0x62, 0x63]) 464 .left
     let ip : ParserInst := ⟨"IPv6Parser", false, .syntactic⟩
     let udp : ParserInst := ⟨"UDPParser", false, .syntactic⟩
     (do let h1 ← runParser (fuelFor b) ip b
         let h2 ← runParser (fuelFor b) udp (b.from_ h1.length)
         let hs ← coapParse .syntactic (fuelFor b) ((b.from_ h1.length).from_ h2.length)
         pure (decide (WfNibbles (pairs hs.fields)), h1.length, h2.length, hs.length)) = .ok (true, 320, 64, 56) := by decide +kernel
+
+/-- non-vacuity of `Valid6` in `C19_stack_roundtrip_compute`: the same packet (::1 → ::2, ports 1000 → 5683, UDP length 18,
+    checksum 0x8050), its CoAP part as the syntactic fields + payload "abc" -/
+example :
+    let R (w v : Nat) : ABuf := ⟨Bits.ofNat w v, .right⟩
+    let L (w v : Nat) : ABuf := ⟨Bits.ofNat w v, .left⟩
+    Valid6 (R 16 18) (R 128 1) (R 128 2) (R 16 1000) (R 16 5683) (R 16 18) (R 16 0x8050)
+      [(Gen.CoAPF.VERSION, L 2 1), (Gen.CoAPF.TYPE, L 2 0), (Gen.CoAPF.TOKEN_LENGTH, L 4 0), (Gen.CoAPF.CODE, L 8 1),
+       (Gen.CoAPF.MESSAGE_ID, L 16 0x1234), (Gen.CoAPF.OPTION_DELTA, L 4 11), (Gen.CoAPF.OPTION_LENGTH, L 4 1),
+       (Gen.CoAPF.OPTION_VALUE, L 8 0x61), (Gen.CoAPF.PAYLOAD_MARKER, L 8 0xff), (Gen.payloadId, L 24 0x616263)] := by
+  refine ⟨by decide +kernel, by decide +kernel, by decide +kernel, by decide +kernel, by decide +kernel, ⟨ABuf.ofNat 16 0x8050, by decide +kernel, by decide +kernel⟩⟩
 
 end Schc
